@@ -57,21 +57,36 @@ def buffering_independence(R):
     from . import c06, c10
     from ..exc import walk
     db = core.DB(core.extract(list(units.POS)))
+    rdb = core.DB(core.extract(list(units.RAW)))
     n = 0
+    work = []
     for fn in db.order:
         cls = fn.get('cls') or {}
         if fn['n'] != 'match' or len(fn.get('params', [])) != 1 or c06.eol_of(fn) is None or not cls: continue
         if walk(fn.get('body'), lambda x: x.get('k') == 'call' and x.get('cn') == 'match', []): continue
-        rule = (cls.get('s') or '').replace(T, '').replace('internal::', '').replace('result_on_found::', '')
+        work.append((db, fn, None, ''))
+    # the hand-written scanners of raw_string that look at the input themselves: the opening bracket (writes the bracket length), the closing bracket (is given it)
+    for fn in rdb.order:
+        cls = fn.get('cls') or {}
+        if fn['n'] != 'match' or len(fn.get('params', [])) != 2 or c06.eol_of(fn) is None: continue
+        if cls.get('tn') == T + 'internal::raw_string_open': work.append((rdb, fn, 0, ''))
+        elif cls.get('tn') == T + 'internal::at_raw_string_close':
+            for k in (2, 3): work.append((rdb, fn, k, ' with a bracket of %d characters' % k))
+    nraw = 0
+    for db, fn, second, note in work:
+        cls = fn.get('cls') or {}
+        rule = (cls.get('s') or '').replace(T, '').replace('internal::', '').replace('result_on_found::', '') + note
+        nraw += second is not None
         parts = []
         try:
             for minimal in (False, True):
                 sp = c10.space('be'); it = Interp(db, sp); it.buffer_min = minimal
                 st = St(sp.full()); st.env[fn['params'][0]['id']] = Opaque('input')
+                if second is not None: st.env[fn['params'][1]['id']] = Val.const(second)
                 part = {}
                 for kind, v, s in outcomes(it, fn, st):
                     if kind == 'window': k = ('window', 0)
-                    elif kind == 'return' and isinstance(v, Val) and v.is_const(): k = ('ok', s.pos) if v.off else ('fail', 0)
+                    elif kind == 'return' and isinstance(v, Val) and v.is_const(): k = (('ok', s.pos) if second is None else ('ok', s.pos, repr(s.env.get(fn['params'][1]['id'])))) if v.off else ('fail', 0)
                     else: raise Unmodelled('path ends with ' + kind)
                     part[k] = sp.OR(part.get(k), s.cond)
                 parts.append((sp, part))
@@ -93,6 +108,8 @@ def buffering_independence(R):
             R.violation('I-buffer', 'rule %s' % rule, '%s over eol::%s: %s' % (rule, c06.eol_of(fn), pmsg), key=('buffer', rule, c06.eol_of(fn), pmsg[:80]))
     R.cov['buffering_independence_rules'] = n
     if n < 200: R.broke('only %d rules evaluated for buffering independence (floor 200)' % n)
+    R.cov['buffering_independence_raw_string_scanners'] = nraw
+    if nraw < 10: R.broke('only %d raw string scanners evaluated for buffering independence (floor 10)' % nraw)
 
 
 def empty_file_paths(db):
